@@ -161,12 +161,24 @@ class Reduction(ArrayExpr):
         if "dtype" in getargspec(aggregate_func).args:
             aggregate_func = partial(aggregate_func, dtype=dtype)
 
-        # Build args for blockwise
+        # Build args for blockwise.  The tree below is sized from the block
+        # grid the child ADVERTISES (``_lower`` runs before the child is
+        # lowered), so pin that grid: a child that lowers onto a finer native
+        # layout (a sliding-window reduction over another one) would otherwise
+        # leave the tree a level short and the result would silently be the
+        # reduction of the first block group only.
+        from dask_array._expr import ChunksFreeze
+
+        def _pinned(x):
+            if any(math.isnan(c) for dim in x.chunks for c in dim):
+                return x
+            return ChunksFreeze(x, x.chunks)
+
         inds = tuple(range(self.array.ndim))
-        args = (self.array, inds)
+        args = (_pinned(self.array), inds)
 
         if self.weights is not None:
-            args += (self.weights, inds)
+            args += (_pinned(self.weights), inds)
 
         # Create Blockwise for per-chunk reduction
         adjust_chunks = {i: output_size for i in axis}
